@@ -249,6 +249,24 @@ def creation_table_impl():
                     res = None
                 impl.reset_modes()
                 rows.append(((requested, gm, is_float), res, str(np.dtype(dt))))
+                # the same request through the `dtype=` cast argument (float data cast to dt, int data cast to dt) and the factories
+                for label, mk in (("list+dtype", lambda: sg.Tensor([1.0, 2.0], requires_grad=requested, dtype=dt)),
+                                  ("floatarray+dtype", lambda: sg.Tensor(np.ones((2,), dtype=np.float32), requires_grad=requested, dtype=dt)),
+                                  ("intarray+dtype", lambda: sg.Tensor(np.ones((2,), dtype=np.int64), requires_grad=requested, dtype=dt)),
+                                  ("ones(dtype=)", lambda: sg.ones((2, 2), dtype=dt, requires_grad=requested)),
+                                  ("tensor(dtype=)", lambda: sg.tensor([1, 2, 3], dtype=dt, requires_grad=requested)),
+                                  ("arange(dtype=)", lambda: sg.arange(3, dtype=dt, requires_grad=requested))):
+                    impl.reset_modes()
+                    impl.tensor_mod.gradient__ = gm
+                    try:
+                        t = mk()
+                        res2 = bool(t.requires_grad)
+                        if str(t.dtype) != str(np.dtype(dt)):
+                            res2 = "dtype %s" % t.dtype
+                    except RuntimeError:
+                        res2 = None
+                    impl.reset_modes()
+                    rows.append(((requested, gm, is_float), res2, "%s via %s" % (np.dtype(dt), label)))
     return rows
 
 
